@@ -10,7 +10,9 @@ namespace RaftWal.Verifier
 /-- `Node.deleteRange` resets the running sum exactly when the code does -/
 theorem delete_resets_eq_source (n : Node) (mx : Nat) :
     (n.sumStartIdx ≠ 0 ∧ mx ≥ n.sumStartIdx) ↔ Generated.verifierDeleteResetsSum n.sumStartIdx mx = true := by
-  unfold Generated.verifierDeleteResetsSum; simp
+  unfold Generated.verifierDeleteResetsSum
+  simp only [Bool.or_eq_true, Bool.and_eq_true, decide_eq_true_eq, Bool.not_eq_true', decide_eq_false_iff_not]
+  all_goals omega
 
 /-- `Node.verify` blames in-flight corruption exactly when the code does -/
 theorem inflight_blame_eq_source (r : Report) :
@@ -25,21 +27,28 @@ theorem inflight_blame_eq_source (r : Report) :
     constructor
     · intro h hc; exact h (UInt64.toNat_inj.mp hc)
     · intro h hc; exact h (by rw [hc])
-  simp [h0, h1]
+  simp only [Bool.or_eq_true, Bool.and_eq_true, decide_eq_true_eq, Bool.not_eq_true', decide_eq_false_iff_not, h0, h1]
+  all_goals omega
 
 /-- `Node.verify` answers ErrRangeMismatch exactly when the code does -/
 theorem range_mismatch_eq_source (n : Node) (r : Report) :
     (n.store.firstIndex > r.start) ↔ Generated.verifyRangeMismatch n.store.firstIndex r.start = true := by
-  unfold Generated.verifyRangeMismatch; simp
+  unfold Generated.verifyRangeMismatch
+  simp only [Bool.or_eq_true, Bool.and_eq_true, decide_eq_true_eq, Bool.not_eq_true', decide_eq_false_iff_not]
+  all_goals omega
 
 /-- `Node.take` names a skipped range exactly when the code does -/
 theorem skipped_range_eq_source (n : Node) (r : Report) :
     (n.lastCP > 0 ∧ n.lastCP ≠ r.start) ↔ Generated.verifierNamesSkippedRange n.lastCP r.start = true := by
-  unfold Generated.verifierNamesSkippedRange; simp
+  unfold Generated.verifierNamesSkippedRange
+  simp only [Bool.or_eq_true, Bool.and_eq_true, decide_eq_true_eq, Bool.not_eq_true', decide_eq_false_iff_not]
+  all_goals omega
 
 /-- `updateVerifyState` voids the follower's written sum exactly when the code does -/
 theorem written_void_eq_source (cpStart startIdx : Nat) :
     (cpStart ≠ startIdx) ↔ Generated.followerSumNotComparable cpStart startIdx = true := by
-  unfold Generated.followerSumNotComparable; simp
+  unfold Generated.followerSumNotComparable
+  simp only [Bool.or_eq_true, Bool.and_eq_true, decide_eq_true_eq, Bool.not_eq_true', decide_eq_false_iff_not]
+  all_goals omega
 
 end RaftWal.Verifier
